@@ -1,5 +1,7 @@
 import SignaloModel.Model.Value
 import SignaloModel.Model.SinkModels
+import SignaloModel.Model.FloatVal
+import SignaloModel.Model.Registry
 import SignaloModel.Proofs.SourcesTree
 /-! Driver: instance records of sources, sinks and pipes. Models whose state type lives in `Type 1`
 (arbitrary machines) are not stored: the descriptor and the operation log are, and the model is re-run
@@ -18,6 +20,14 @@ structure SkInst where
   k : SinkModels.Sk V
   kind : String
   hist : List V := []
+
+/-- a float-typed filter instance (Hampel, preset convolutions / wavelet filters) -/
+structure FInst (F : Type) where
+  st : Registry.St F
+  hist : List (List F) := []
+  last : Option (Option (List F)) := none
+  /-- for a synthesis filter fed by an analysis filter: the id of that analysis instance -/
+  partner : Option Nat := none
 
 /-- pipe shapes: `L` a filter leaf (index into the leaf list), `S` the source leaf, `K` the sink leaf -/
 inductive PShape where
